@@ -11,6 +11,9 @@ from harness.common import Check, Failure, must, must_raise
 def gen(tier, seed):
     for spec in datasets.all_specs(tier):
         yield spec
+    # data stored x-major ahead of the coordinates: Dataset.sizes lists x before y (non-square grids)
+    yield {'conv': 'cf1d', 'ny': 3, 'nx': 5, 'leading_transposed': True, 'ydim': 'y', 'xdim': 'x'}
+    yield {'conv': 'cf1d', 'ny': 4, 'nx': 2, 'leading_transposed': True, 'ydim': 'y', 'xdim': 'x', 'as_coords': False}
     yield {'conv': 'ugrid', 'ny': 2, 'nx': 3, 'tables': ['edge_node'], 'edge_transposed': True}
     yield {'conv': 'ugrid', 'ny': 2, 'nx': 2, 'tables': ['edge_node', 'edge_face'], 'transposed': True}
 
